@@ -64,8 +64,63 @@ Definition spec_0003 (c : cfg) (id : list uchar) (digest : bytes) : res bytes :=
 
 (** * 0006: "The OCFL object identifier prefix is defined as all characters before and
     including a configurable delimiter"; the delimiter is "case-insensitive" and "its
-    last occurence (right-most) will be used".  Two characters are the same ignoring
-    case when their lower-case forms are the same. *)
+    last occurence (right-most) will be used".
+
+    The documents do not define "case-insensitive".  Reading used here: a stretch of
+    the id IS the delimiter, ignoring case, when the two have the same lower-case form,
+    the lower-case form of a text being the lower-case forms of its characters one after
+    the other ([lower_text]: no rule that looks at neighbouring characters, so a capital
+    sigma is the same letter wherever it stands).  [ci_starts s t] = the number of
+    leading characters of s whose lower-case forms spell t: the lower-case form of each
+    character in turn must begin what is left of t.
+    (The narrower reading "character by character" is [ci_prefix]/[after_last_simple]
+    below; the two agree unless a lower-case form has more than one character, which in
+    Unicode is U+0130 only: Props/C11.v C11_case_readings_agree.) *)
+Fixpoint strip_bytes (p s : bytes) : option bytes :=        (* s without its prefix p *)
+  match p, s with
+  | [], _ => Some s
+  | c :: p', x :: s' => if Ascii.eqb c x then strip_bytes p' s' else None
+  | _ :: _, [] => None
+  end.
+Fixpoint ci_starts (s : list uchar) (t : bytes) : option nat :=
+  match t with
+  | [] => Some 0%nat
+  | _ :: _ =>
+      match s with
+      | [] => None
+      | c :: s' => match strip_bytes (u_low c) t with
+                   | Some rest => match ci_starts s' rest with Some k => Some (S k) | None => None end
+                   | None => None
+                   end
+      end
+  end.
+(** what follows the right-most occurrence in s of the text whose lower-case form is t;
+    None when there is no occurrence *)
+Fixpoint after_last (t : bytes) (s : list uchar) : option (list uchar) :=
+  match s with
+  | [] => match t with [] => Some [] | _ => None end
+  | _ :: s' => match after_last t s' with
+               | Some r => Some r                                    (* an occurrence further right wins *)
+               | None => match ci_starts s t with Some k => Some (skipn k s) | None => None end
+               end
+  end.
+(** Without a delimiter "the whole id is used"; "if the delimiter is found at the end,
+    an error is thrown" (0007 step 1).  0006 does not spell the last case out; an empty
+    object root path would be the storage root itself, so the id cannot be mapped. *)
+Definition omit_prefix (d id : list uchar) : res (list uchar) :=
+  match after_last (lower_text d) id with
+  | None => Ok id
+  | Some [] => Err
+  | Some r => Ok r
+  end.
+
+(** what [omit_prefix] means, said without an algorithm: the k characters of s from
+    position p on are the delimiter d, ignoring case (Props/C11.v C11_omit_prefix_meaning) *)
+Definition occurs_at (d s : list uchar) (p k : nat) : Prop :=
+  (p + k <= List.length s)%nat /\ lower_text (firstn k (skipn p s)) = lower_text d.
+
+(** the narrower reading: the delimiter's characters against as many characters of the
+    id, two characters being the same ignoring case when their lower-case forms are *)
 Definition same_ci (a c : uchar) : bool := bytes_eqb (u_low a) (u_low c).
 Fixpoint ci_prefix (d s : list uchar) : bool :=
   match d, s with
@@ -73,23 +128,13 @@ Fixpoint ci_prefix (d s : list uchar) : bool :=
   | a :: d', c :: s' => same_ci a c && ci_prefix d' s'
   | _ :: _, [] => false
   end.
-(** what follows the right-most occurrence of d in s; None when d does not occur *)
-Fixpoint after_last (d s : list uchar) : option (list uchar) :=
+Fixpoint after_last_simple (d s : list uchar) : option (list uchar) :=
   match s with
   | [] => match d with [] => Some [] | _ => None end
-  | _ :: t => match after_last d t with
-              | Some r => Some r                                     (* an occurrence further right wins *)
+  | _ :: t => match after_last_simple d t with
+              | Some r => Some r
               | None => if ci_prefix d s then Some (skipn (List.length d) s) else None
               end
-  end.
-(** Without a delimiter "the whole id is used"; "if the delimiter is found at the end,
-    an error is thrown" (0007 step 1).  0006 does not spell the last case out; an empty
-    object root path would be the storage root itself, so the id cannot be mapped. *)
-Definition omit_prefix (d id : list uchar) : res (list uchar) :=
-  match after_last d id with
-  | None => Ok id
-  | Some [] => Err
-  | Some r => Ok r
   end.
 
 Definition spec_0006 (c : cfg) (id : list uchar) : res bytes :=
@@ -235,6 +280,17 @@ Definition parse_obj (e : ext) (o : rawobj) : option cfg :=
       opt_bind (pad_param (r_pad o)) (fun p =>
       opt_bind (bool_param (r_rev o)) (fun rv =>
       Some (mkCfg e e Sha256 ts nt false d p rv))))))
+  end.
+
+(** NOT a finding but a hole in the documents: none of the five says whether the key
+    extensionName may be omitted.  rocfl requires it for 0006/0007 (serde "missing
+    field") and defaults it for 0002-0004.  The configuration theorems are stated for
+    the configurations the documents decide. *)
+Definition is_absent (v : jv) : bool := match v with JAbsent => true | _ => false end.
+Definition cfg_determined (e : ext) (r : raw) : bool :=
+  match e, r with
+  | (E0006 | E0007), RawObj o => negb (is_absent (r_ext o))
+  | _, _ => true
   end.
 
 Definition no_params : rawobj := mkRaw JAbsent JAbsent JAbsent JAbsent JAbsent JAbsent JAbsent JAbsent.
